@@ -132,6 +132,58 @@ def registered_pass(ctx, rec):
                                   [list(map(str, e))[:3] for e in new[:6]], key=f'regenerated:registered:{"symbolic" if symbolic else "tape"}:{new[0][0]}')
 
 
+def odd_keys_pass(ctx, rec):
+    """key patterns given in other hashable forms (a range object as keys of an operand, a direct lookup by blade names): cached like any
+    other; and registering one more function does not make the already compiled ones regenerate"""
+    from kingdon import MultiVector
+    for use_wrapper in (False, True):
+        alg = make_algebra([1, 1, 1], **({'wrapper': rec.wrapper} if use_wrapper else {}))
+        x = alg.multivector([float(i + 1) for i in range(8)], keys=range(8))
+        y = alg.multivector([float(2 * i + 1) for i in range(8)], keys=range(8))
+        reg = alg.register(symbolic=True)(lambda_free_square())
+        for label, thunk in (('gp:range-keys', lambda: x * y), ('add:range-keys', lambda: x + y), ('op:range-keys', lambda: x ^ y),
+                             ('sw:range-keys', lambda: alg.vector([1., 2., 3.]) >> alg.multivector([1., 2.], keys=range(1, 3))),
+                             ('registered-symbolic:range-keys', lambda: reg(x)),
+                             ('lookup-by-name', lambda: alg.gp[('e1', 'e2'), ('e12',)])):
+            for rep in range(3):
+                before = len(rec.events)
+                try:
+                    thunk()
+                except Exception as e:
+                    ctx.count('odd-keys-raises:' + type(e).__name__)
+                    break
+                new = rec.events[before:]
+                case = {'wrapper': use_wrapper, 'call': label, 'repetition': rep}
+                ctx.case(case, tag='odd-keys')
+                if rep > 0 and new:
+                    ctx.violation('regenerated', case, 'no generation/compile/wrap event for a repeated call', [list(map(str, e))[:3] for e in new[:6]],
+                                  key=f'regenerated:odd-keys:{label.split(":")[0]}')
+                    break
+        # registering afterwards
+        def f1(a, b):
+            return a * b - (a | b)
+        def f2(a):
+            return a * a
+        r1 = alg.register(f1)
+        a = MultiVector.fromkeysvalues(alg, (1, 2), [1.0, 2.0]); b = MultiVector.fromkeysvalues(alg, (2, 4), [3.0, 4.0])
+        r1(a, b)
+        r2 = alg.register(f2)                 # an unrelated registration after f1 was compiled
+        r3 = alg.register(symbolic=True)(f2)
+        before = len(rec.events)
+        r1(a, b)
+        new = rec.events[before:]
+        case = {'wrapper': use_wrapper, 'call': 'registered f1 again after two more registrations'}
+        ctx.case(case, tag='register-after-compile')
+        if new:
+            ctx.violation('regenerated', case, 'no generation/compile/wrap event', [list(map(str, e))[:3] for e in new[:6]], key='regenerated:after-register')
+
+
+def lambda_free_square():
+    def square_fn(x):
+        return x * x
+    return square_fn
+
+
 def run(ctx):
     ctx.rule = ('sequential call histories on one long-lived algebra (with and without a counting wrapper): operators (string-path, '
                 'sympy-path composite, unary) x small ordered key patterns incl. permutations and identically-zero results, every '
@@ -235,6 +287,7 @@ def run(ctx):
             ctx.count('events', len(all_events))
             ctx.count('histories')
         registered_pass(ctx, rec)
+        odd_keys_pass(ctx, rec)
     finally:
         rec.uninstall()
     out = ctx.drive(lines)
